@@ -100,6 +100,8 @@ type hGen struct {
 	named     int   // out of 3: how often a rule port is the named port
 	broad     bool  // selectors are mostly empty, so policies really select the pods
 	weights   []int // per-history mix of mutation kinds
+	anpN      int   // number of ANP names in play
+	adminPre  int   // admin profile: ANPs inserted up front
 	owned     bool  // every pod has a controller (so every verdict is cacheable)
 	qports    []string
 }
@@ -250,10 +252,10 @@ func (g *hGen) mkNetpol(ns, name string) *netv1.NetworkPolicy {
 func (g *hGen) subject() apisv1a.AdminNetworkPolicySubject {
 	r := g.r
 	if r.chance(1, 2) {
-		s := hSelector(r, nsKeys, nsVals)
+		s := g.sel(nsKeys, nsVals)
 		return apisv1a.AdminNetworkPolicySubject{Namespaces: &s}
 	}
-	return apisv1a.AdminNetworkPolicySubject{Pods: &apisv1a.NamespacedPod{NamespaceSelector: hSelector(r, nsKeys, nsVals), PodSelector: hSelector(r, podKeys, podVals)}}
+	return apisv1a.AdminNetworkPolicySubject{Pods: &apisv1a.NamespacedPod{NamespaceSelector: g.sel(nsKeys, nsVals), PodSelector: g.sel(podKeys, podVals)}}
 }
 
 func (g *hGen) anpPorts() *[]apisv1a.AdminNetworkPolicyPort {
@@ -378,6 +380,7 @@ func (g *hGen) mutate() {
 		1,  // 11 clear
 		2,  // 12 insert that must fail
 		4,  // 13 re-port a whole workload (same names, labels and owner; other container ports)
+		3,  // 14 recycle a single-pod workload: ask, delete, re-create with the next port epoch, ask again
 	}
 	delOp := func() string { return pick(r, []string{"delete", "delete", "deleteCopy"}) }
 	if g.weights == nil {
@@ -404,6 +407,19 @@ func (g *hGen) mutate() {
 			p = g.mkPod(ns, name)
 		}
 		delete(g.pods, k)
+		if len(p.OwnerReferences) > 0 {
+			// the last pod of a workload goes: whatever comes back under that owner is a new rollout
+			// and may have other container ports
+			ok, left := p.Namespace+"/"+p.OwnerReferences[0].Name, 0
+			for _, q := range g.pods {
+				if len(q.OwnerReferences) > 0 && q.Namespace+"/"+q.OwnerReferences[0].Name == ok {
+					left++
+				}
+			}
+			if left == 0 {
+				g.epoch[ok]++
+			}
+		}
 		g.add(delOp(), g.obj("Pod", p))
 	case 2:
 		n := g.ns()
@@ -434,14 +450,14 @@ func (g *hGen) mutate() {
 		delete(g.nps, k)
 		g.add(delOp(), g.obj("NetworkPolicy", np))
 	case 6:
-		name := fmt.Sprintf("anp%d", r.intn(5))
+		name := fmt.Sprintf("anp%d", r.intn(g.anpN))
 		a := g.mkANP(name)
 		if _, dup := g.anps[name]; !dup {
 			g.anps[name] = a
 		}
 		g.add("insert", g.obj("AdminNetworkPolicy", a))
 	case 7:
-		name := fmt.Sprintf("anp%d", r.intn(5))
+		name := fmt.Sprintf("anp%d", r.intn(g.anpN))
 		if len(g.anps) > 0 && r.chance(3, 4) {
 			name = pick(r, sortedKeys(g.anps))
 		}
@@ -513,6 +529,45 @@ func (g *hGen) mutate() {
 			g.pods[k] = np
 			g.add("insert", g.obj("Pod", np))
 		}
+	case 14:
+		// a workload with one pod goes away completely and comes back (same name, owner and labels,
+		// next port epoch); the questions asked before are asked again afterwards
+		var single []string
+		for _, k := range sortedKeys(g.pods) {
+			p := g.pods[k]
+			if len(p.OwnerReferences) == 0 {
+				continue
+			}
+			n := 0
+			for _, q := range g.pods {
+				if len(q.OwnerReferences) > 0 && q.Namespace == p.Namespace && q.OwnerReferences[0].Name == p.OwnerReferences[0].Name {
+					n++
+				}
+			}
+			if n == 1 {
+				single = append(single, k)
+			}
+		}
+		if len(single) == 0 {
+			return
+		}
+		k := pick(r, single)
+		p := g.pods[k]
+		ok := p.Namespace + "/" + p.OwnerReferences[0].Name
+		for i, n := 0, r.between(1, 3); i < n; i++ {
+			q := job.Step{Kind: job.Query, Src: g.peerStr(), Dst: k, Proto: "TCP", Port: pick(r, []string{"80", "8080", "443"})}
+			if r.chance(1, 4) {
+				q.Src, q.Dst = q.Dst, q.Src
+			}
+			g.asked = append(g.asked, q)
+			g.steps = append(g.steps, q)
+		}
+		g.add(delOp(), g.obj("Pod", p))
+		g.epoch[ok]++
+		np := p.DeepCopy()
+		np.Spec.Containers[0].Ports = ownerPorts(ok, p.Labels, g.epoch[ok])
+		g.pods[k] = np
+		g.add("insert", g.obj("Pod", np))
 	default:
 		switch r.intn(3) {
 		case 0: // BANP with a name other than default
@@ -543,24 +598,37 @@ func genHistory(r *rng, n int) *history {
 	g.tcpOnly = r.chance(1, 3)
 	g.named = r.between(0, 3)
 	g.broad = r.chance(1, 2)
-	base := []int{10, 5, 6, 2, 8, 5, 7, 5, 4, 3, 2, 1, 2, 4}
+	base := []int{10, 5, 6, 2, 8, 5, 7, 5, 4, 3, 2, 1, 2, 4, 3}
 	for _, b := range base {
 		g.weights = append(g.weights, b*pick(r, []int{0, 1, 1, 3}))
 	}
 	g.weights[0] += 2 // a history always has pods
 	g.weights[2]++    // and namespaces
 	g.qports = hPorts
+	switch prof := r.intn(10); {
+	case prof < 2:
+		// admin profile: few pods, broad selectors, and a churn of admin policies whose actions collide
+		g.nsN, g.podN, g.broad, g.owned = r.between(1, 2), 3, true, true
+		g.anpN, g.adminPre = 8, r.between(3, 6)
+		g.weights = []int{3, 1, 1, 0, 1, 1, 8, 9, 2, 2, 0, 0, 0, 0, 0}
+	case prof < 4:
+		// delete-and-recreate profile: workloads disappear completely and come back
+		g.nsN, g.podN, g.tcpOnly, g.named, g.broad, g.owned = 1, 2, true, 3, true, true
+		g.qports = []string{"80", "8080", "443"}
+		g.weights = []int{6, 3, 1, 0, 6, 2, 0, 0, 0, 0, 0, 0, 0, 2, 10}
+	}
 	if r.chance(1, 5) {
 		// rollout profile: one namespace, few controlled pods, policies with named ports that really
 		// select them, and whole-workload re-ports as the dominant mutation
 		g.nsN, g.podN, g.tcpOnly, g.named, g.broad, g.owned = 1, 3, true, 3, true, true
 		g.qports = []string{"80", "8080", "443"}
-		g.weights = []int{6, 1, 1, 0, 8, 2, 0, 0, 0, 0, 1, 0, 0, 10}
+		g.weights = []int{6, 1, 1, 0, 8, 2, 0, 0, 0, 0, 1, 0, 0, 10, 2}
 	}
 	pr := r.perm(1001)
-	for i := 0; i < 5; i++ {
+	for i := 0; i < 8; i++ {
 		g.prio[fmt.Sprintf("anp%d", i)] = int32(pr[i])
 	}
+	g.anpN = 5
 	// most histories start from a populated world, some from nothing
 	if r.chance(5, 6) {
 		for _, n := range hNS[:g.nsN] {
@@ -576,6 +644,12 @@ func genHistory(r *rng, n int) *history {
 			g.pods[key] = p
 			g.add("insert", g.obj("Pod", p))
 		}
+	}
+	for i := 0; i < g.adminPre; i++ {
+		name := fmt.Sprintf("anp%d", i)
+		a := g.mkANP(name)
+		g.anps[name] = a
+		g.add("insert", g.obj("AdminNetworkPolicy", a))
 	}
 	g.queries(g.r.between(2, 6))
 	for len(g.steps) < n {
@@ -762,9 +836,9 @@ func init() {
 
 func runC15(tier string, seed uint64) int {
 	rp := newReport("C15", tier, seed)
-	n := 3000
+	n := 6000
 	if tier == "thorough" {
-		n = 150000
+		n = 300000
 	}
 	if v := envInt("VERIF_C15_N"); v > 0 {
 		n = v
